@@ -45,4 +45,18 @@ class Prop(PropBase):
             line = tg.history(rng, nops, sized=rng.random() < 0.7, ops_weights=MODE_WEIGHTS, inputs=(i % 3 == 0))
             nm = sum(line.count(" %s" % o) for o in ("hc", "sc", "me", "md", "nb", "ab", "ti"))
             cs.append(Case(line, tag="history", nontrivial=nm >= 2, cfgs=tg.configs(rng, 2)))
+        # cursor-visibility requests around screen draws that repaint many cells at once (a draw is not a mode request)
+        from .. import screengen as sg
+        from .C03 import CFGS_NOIMM
+        for line in sg.mode_frames(rng, 250 if tier == "quick" else 5000):
+            cs.append(Case(line, tag="modes-around-draws", cfgs=[rng.choice(CFGS_NOIMM)]))
+        # the same manipulator OBJECTS (a title, an enable_mouse kept in a variable) streamed to terminals with different
+        # capabilities: each terminal must get the form ITS behaviour declares (kind `M`)
+        for bits in itertools.permutations([0, 4, 8, 12, 1, 3], 2):
+            for seq in (["ti 2 65 66"], ["ti 2 65 66", "ti 2 65 66"], ["me", "md"], ["ti 1 67", "me", "ti 1 67", "md"], ["hc", "ti 0", "sc"]):
+                cs.append(Case("M %d %d %d ; %s" % (bits[0], bits[1], bits[1], " ; ".join(seq)), sweep="shared-manipulator-objects", cfgs=[cfgs[k % 6]]))
+                k += 1
+        for i in range(300 if tier == "quick" else 6000):
+            line = tg.multi_history(rng, rng.choice([2, 3, 5, 8, 13]), ops_weights=MODE_WEIGHTS, sized=rng.random() < 0.7)
+            cs.append(Case(line, tag="shared-manipulator-objects", cfgs=tg.configs(rng, 1)))
         return cs
